@@ -5,6 +5,36 @@ V = os.path.dirname(os.path.dirname(os.path.abspath(__file__)))
 
 # id -> (level, technique, level text, level note, design ref)
 CHECKS = {
+ "C01": ("exploration",
+         "bounded-exhaustive exploration of the real query pipeline against an independent reference evaluator",
+         "Every predicate of depth <= 2 (thorough: 3) over a pool of ~190 atoms is executed end to end (parse, check, fold, scan choice, scan, filter, projection) on all 64 sub-stores of a 6-key universe (depth 1) or on fixed stores (deeper), row-at-a-time and in batches of 1,2,3,32, twice each, and compared row by row with a reference evaluator written from the README. Complete enumeration of the stated space, no sampling.",
+         "Reference evaluator and its documented domain (DESIGN.md §3.2); Go regexp; repetition checked by running twice.",
+         "DESIGN.md §4 C01"),
+ "C02": ("exploration",
+         "bounded-exhaustive exploration of predicate trees over a key universe proved adequate at run time; plan rows vs un-optimised filter, region containment, delete post-state",
+         "All Boolean trees to depth 2 (thorough: 3) over every key-constraining atom shape with the literal on either side are planned and executed over a 155-key universe that the check proves realises every order/prefix relation to the literals, so agreement on it is agreement on every key; the chosen access path must contain every satisfying key and select/delete must equal a full scan filtered pair by pair.",
+         "FilterExec.Filter of the un-optimised parse is the yardstick (its own semantics are C01's).",
+         "DESIGN.md §4 C02"),
+ "C11": ("model_checking",
+         "explicit-state search: BFS over all 81 reachable store states, every delete transition executed on the real plan and compared with the reference map",
+         "All reachable store states (breadth-first from the empty store, deduplicated by canonical contents) x every DELETE statement of the alphabet x limits x batch sizes x poll words are executed on the real code over a clone of the state; post-state, written pairs and storage traffic are compared with the model step. By induction on history length this covers every statement history over the alphabet.",
+         "Storage with snapshot cursors and no hidden state; fresh plan per statement.",
+         "DESIGN.md §4 C11"),
+ "C12": ("model_checking",
+         "explicit-state search over the same state space: every put/remove list of 1..3 elements (incl. failing elements at every position) under every poll word",
+         "All reachable states x all PUT lists of 1..3 pair expressions and REMOVE lists of 1..3 keys from the pools (with evaluation failures at every position) x every poll word over {Next,Batch}; the mutating calls seen by the instrumented storage must carry exactly the stated writes once, nothing on failure or later polls, and follow-up point reads must observe them.",
+         "Put vs BatchPut split not prescribed; integers only in written numbers.",
+         "DESIGN.md §4 C12"),
+ "C13": ("fault_enumeration",
+         "single-fault enumeration: a sentinel storage error injected at every call index of the fault-free call sequence of every statement/store/mode",
+         "For each statement (every kind and access path) on each store and mode the fault-free storage call sequence is recorded and then EVERY position is failed in turn; the error must surface as the sentinel from BuildPlan/Next/Batch with no later storage call. Fault-free runs also check read-only-ness of SELECT and of rejected statements.",
+         "One fault per execution (a second is unreachable once the first surfaces).",
+         "DESIGN.md §4 C13"),
+ "C18": ("exploration",
+         "bounded-exhaustive exploration of key-pinning shapes with the storage call log as the observation",
+         "Every canonical pinning shape, alone, AND-ed with opaque predicates on either side and with a second pin, plus unsatisfiable shapes, over all literals and all 64 sub-stores in row mode and batches of 1,2,32: the storage traffic of a full drain must stay inside the region pinned by a conjunct (plus one key beyond its end), use point reads for =/IN and be empty for unsatisfiable clauses.",
+         "Closed reading of half-open pins; standard drain protocol.",
+         "DESIGN.md §4 C18"),
  "C08": ("exploration",
          "bounded-exhaustive grid exploration of the real LIMIT state machines against the unlimited run and a reference model",
          "Every (offset, count, result size, batch size, refill pattern) of a stated grid is executed on the real plans in both iteration modes for select / ordered / aggregate / delete and compared with the slice of the unlimited result; a coverage statement over the whole grid, not a sample.",
